@@ -58,7 +58,7 @@ func condMatches(c Cond, val any, err error) (match bool, onlyResultWithErr bool
 		}
 	}
 	for _, r := range c.Results {
-		if reflect.DeepEqual(val, r) {
+		if reflect.DeepEqual(val, resVal(r)) {
 			if err != nil {
 				return true, true
 			}
